@@ -863,6 +863,7 @@ func main() {
 	skeletons(&o, f)
 	distinctFacts(&o, f)
 	identifierScanner(&o)
+	analyticScopeFacts(&o, f)
 	o.WriteString("end Csvq.Gen.An\n")
 	fmt.Print(o.String())
 }
